@@ -943,7 +943,10 @@ class TypeBlocks(ContainerOperand):
         '''
         Return a TypeBlocks rounded to the given decimals. Negative decimals round to the left of the decimal point.
         '''
-        func = partial(np.round, decimals=decimals)
+        def func(array: np.ndarray) -> np.ndarray:
+            post = np.round(array, decimals=decimals)
+            post.flags.writeable = False
+            return post
         # for now, we do not expose application of rounding on a subset of blocks, but is doable by setting the column_key
         return self.__class__(
                 blocks=list(self._ufunc_blocks(column_key=NULL_SLICE, func=func)),
